@@ -14,7 +14,13 @@
   Lemmas: Proofs/ConstraintCheck.lean
 
   The tree violates the property outside `dom`; each excluded region has a counter-example
-  theorem below (F81, F83–F86).  F82 (the SIZE constraint of a named SEQUENCE OF / SET OF was never
+  theorem below (F84, and the remainders F180 / F181 of the repaired F81 / F83; F182, bounds of 2^64
+  or more in magnitude, is a region where the model does not follow the C compiler).  F81 (an INTEGER_t
+  with a non-negative range was read through asn_INTEGER2long), F83 (a single-range FROM on
+  UTF8String produced no test), F85 (a union with the outer edges MIN and MAX was dropped as a
+  whole) and F86 (a constrained BMPString rejected the cells FFFE / FFFF) are repaired; the former
+  witnesses are inside `dom` and decided correctly (`wide_unsigned_checked`, `utf8_from_checked`,
+  `union_min_max_checked`, `bmp_all_cells_checked`).  F82 (the SIZE constraint of a named SEQUENCE OF / SET OF was never
   tested) is repaired (`named_list_size_checked`).  F26 (`INTEGER (0..4294967295)`: range test compiled away on LP64) is
   repaired (`ulong_full_range_checked`).  F48 (a generated checker with nothing applicable called itself) is
   repaired: the model has no non-returning verdict any more (`check_terminates`,
@@ -135,7 +141,9 @@ theorem range_code_mixed_cex :
     exactly for the values that satisfy every value / SIZE / FROM constraint of the ASN.1 source
     and the built-in alphabets, at every nesting depth.  `dom` admits every SEQUENCE / SET shape
     (any number of components, with or without constraints of their own, in any order): the
-    remaining guards concern leaf types only (F81, F83–F86). -/
+    remaining guards concern leaf types only (F84: UTF-8 forms that are not RFC 3629; F180: an
+    INTEGER_t value outside the 64-bit C variable; F181: FROM on UTF8String beyond U+007F; F182:
+    bounds of 2^64 or more in magnitude). -/
 theorem check_iff_satisfies_partial (name : String) (t : Ty) (v : Val) (h : dom name t v = true) :
     check name t v = .ok ↔ satisfies t v = true :=
   descr_iff t name v h
@@ -258,40 +266,105 @@ theorem named_list_size_checked :
         (.struct [("n", .bool true), ("m", .list [])]) = .fail "O" .constraintFailed ∧
     check "O2" (.named "O" o) (.list []) = .fail "O2" .constraintFailed := by decide +kernel
 
-/-! ## 4. Counter-examples for the excluded regions (the tree as it is, mirrored by Impl) -/
+/-! ## 4. Repaired defects (F81, F83, F85, F86): the former witnesses; counter-examples for the
+    regions that remain excluded (the tree as it is, mirrored by Impl) -/
 
-/-- **F81.**  `INTEGER (0..18446744073709551615)` lives in INTEGER_t and is read through
-    asn_INTEGER2long: 2^63 satisfies the constraint and is rejected ("value too large"). -/
-theorem wide_integer_cex :
+/-- **F81 repaired, the former witness.**  `INTEGER (0..18446744073709551615)` lives in INTEGER_t; its
+    lower edge is ≥ 0, so the generated code declares `unsigned long value` and reads it through
+    asn_INTEGER2ulong (it used asn_INTEGER2long: "value too large" from 2^63 on): 2^63 and 2^64-1 are
+    accepted, -1 and 2^64 rejected; the same for `(5000000000..MAX)`.  All inside `dom` except 2^64,
+    which no `unsigned long` holds. -/
+theorem wide_unsigned_checked :
     let t : Ty := .int (some [⟨some 0, some 18446744073709551615⟩])
-    check "Y" t (.int 9223372036854775808) = .fail "Y" .valueTooLarge ∧
-    satisfies t (.int 9223372036854775808) = true := by decide +kernel
+    let t2 : Ty := .int (some [⟨some 5000000000, none⟩])
+    check "Y" t (.int 9223372036854775808) = .ok ∧ satisfies t (.int 9223372036854775808) = true ∧
+    dom "Y" t (.int 9223372036854775808) = true ∧
+    check "Y" t (.int 18446744073709551615) = .ok ∧ dom "Y" t (.int 18446744073709551615) = true ∧
+    check "Y" t (.int 0) = .ok ∧
+    check "Y" t (.int 18446744073709551616) = .fail "Y" .valueTooLarge ∧ satisfies t (.int 18446744073709551616) = false ∧
+    check "Y2" t2 (.int 9223372036854775808) = .ok ∧ dom "Y2" t2 (.int 9223372036854775808) = true ∧
+    check "Y2" t2 (.int 4999999999) = .fail "Y2" .constraintFailed ∧ dom "Y2" t2 (.int 4999999999) = true := by
+  decide +kernel
 
-/-- **F83.**  `UTF8String (FROM("a".."z"))`: a single-range FROM on UTF8String produces no test. -/
-theorem utf8_from_cex :
+/-- **F180 (what remains of F81).**  The generated code still converts the INTEGER_t into a 64-bit C
+    variable before comparing: with a negative lower edge the variable is a `long`, so
+    `INTEGER (-1..18446744073709551615)` rejects the valid 2^63, and
+    `INTEGER (-18446744073709551615..0)` the valid -2^63-1.  Outside `dom`. -/
+theorem wide_integer_cex :
+    let t : Ty := .int (some [⟨some (-1), some 18446744073709551615⟩])
+    let t2 : Ty := .int (some [⟨some (-18446744073709551615), some 0⟩])
+    check "Y3" t (.int 9223372036854775808) = .fail "Y3" .valueTooLarge ∧
+    satisfies t (.int 9223372036854775808) = true ∧ dom "Y3" t (.int 9223372036854775808) = false ∧
+    check "Y4" t2 (.int (-9223372036854775809)) = .fail "Y4" .valueTooLarge ∧
+    satisfies t2 (.int (-9223372036854775809)) = true ∧ dom "Y4" t2 (.int (-9223372036854775809)) = false := by
+  decide +kernel
+
+/-- bounds of 2^64 or more in magnitude are outside `dom` (F182: the C compiler truncates the emitted
+    constant, which the model does not mirror) -/
+example : dom "Y5" (.int (some [⟨some 0, some 1180591620717411303424⟩])) (.int 1) = false := by decide +kernel
+
+/-- **F83 repaired, the former witness.**  `UTF8String (FROM("a".."z"))`: a FROM within 0..127 is tested
+    through the 128-entry table also when it is a single range (it produced no test): "A" is rejected,
+    "az" accepted, a two-octet character rejected; with a SIZE constraint as well.  Inside `dom`. -/
+theorem utf8_from_checked :
     let t : Ty := .str .utf8 none (some [⟨some 97, some 122⟩])
-    check "R" t (.octets [65]) = .ok ∧ satisfies t (.octets [65]) = false := by decide +kernel
+    let t2 : Ty := .str .utf8 (some [⟨some 1, some 3⟩]) (some [⟨some 97, some 122⟩])
+    check "R" t (.octets [65]) = .fail "R" .constraintFailed ∧ satisfies t (.octets [65]) = false ∧
+    dom "R" t (.octets [65]) = true ∧
+    check "R" t (.octets [97, 122]) = .ok ∧ dom "R" t (.octets [97, 122]) = true ∧
+    check "R" t (.octets [97, 0xC3, 0xA9]) = .fail "R" .constraintFailed ∧ dom "R" t (.octets [97, 0xC3, 0xA9]) = true ∧
+    check "R2" t2 (.octets [97, 65]) = .fail "R2" .constraintFailed ∧ dom "R2" t2 (.octets [97, 65]) = true ∧
+    check "R2" t2 (.octets [97, 98, 99, 100]) = .fail "R2" .constraintFailed ∧
+    check "R2" t2 (.octets [97, 98, 99]) = .ok := by decide +kernel
+
+/-- **F181 (what remains of F83).**  A FROM on UTF8String that reaches beyond U+007F is still not
+    compiled into a test (the generated loop works octet by octet): `UTF8String (FROM("a".."ÿ"))`
+    accepts "A".  Outside `dom`. -/
+theorem utf8_from_cex :
+    let t : Ty := .str .utf8 none (some [⟨some 97, some 255⟩])
+    check "R" t (.octets [65]) = .ok ∧ satisfies t (.octets [65]) = false ∧ dom "R" t (.octets [65]) = false := by
+  decide +kernel
 
 /-- **F84.**  UTF8String_length accepts an encoded surrogate (ED A0 80) and a 5-octet form, which are
-    not UTF-8 (RFC 3629 / ISO 10646). -/
+    not UTF-8 (RFC 3629 / ISO 10646); tests-skeletons/check-UTF8String.c pins the 5-octet form. -/
 theorem utf8_legacy_forms_cex :
     check "U" (.str .utf8 none none) (.octets [0xED, 0xA0, 0x80]) = .ok ∧
     satisfies (.str .utf8 none none) (.octets [0xED, 0xA0, 0x80]) = false ∧
     check "U" (.str .utf8 none none) (.octets [0xF8, 0x88, 0x80, 0x80, 0x80]) = .ok ∧
     satisfies (.str .utf8 none none) (.octets [0xF8, 0x88, 0x80, 0x80, 0x80]) = false := by decide +kernel
 
-/-- **F85.**  A union whose overall span is vacuous is dropped as a whole: a component
-    `a INTEGER (MIN..0 | 5..MAX)` accepts 3. -/
-theorem dropped_union_cex :
-    let t : Ty := .seq (.cons "a" false (.int (some [⟨none, some 0⟩, ⟨some 5, none⟩])) .nil)
-    check "S" t (.struct [("a", .int 3)]) = .ok ∧ satisfies t (.struct [("a", .int 3)]) = false := by decide +kernel
+/-- **F85 repaired, the former witnesses.**  A union whose outer edges are MIN and MAX is no longer
+    dropped as a whole: the component `a INTEGER (MIN..0 | 5..MAX)` rejects 3 and accepts 0 and 5, the
+    named type too, `b OCTET STRING (SIZE(0..2 | 5..MAX))` rejects three octets, a named
+    `SEQUENCE (SIZE(0..1 | 3..MAX)) OF` rejects two elements.  Inside `dom`. -/
+theorem union_min_max_checked :
+    let ti : Ty := .int (some [⟨none, some 0⟩, ⟨some 5, none⟩])
+    let t : Ty := .seq (.cons "a" false ti .nil)
+    let tb : Ty := .seq (.cons "b" false (.str .octet (some [⟨some 0, some 2⟩, ⟨some 5, none⟩]) none) .nil)
+    let tl : Ty := .listOf false (some [⟨some 0, some 1⟩, ⟨some 3, none⟩]) .bool
+    check "S" t (.struct [("a", .int 3)]) = .fail "INTEGER" .constraintFailed ∧ satisfies t (.struct [("a", .int 3)]) = false ∧
+    dom "S" t (.struct [("a", .int 3)]) = true ∧
+    check "S" t (.struct [("a", .int 0)]) = .ok ∧ check "S" t (.struct [("a", .int 5)]) = .ok ∧
+    check "N" ti (.int 3) = .fail "N" .constraintFailed ∧ dom "N" ti (.int 3) = true ∧ check "N" ti (.int (-7)) = .ok ∧
+    check "S" tb (.struct [("b", .octets [1, 2, 3])]) = .fail "OCTET STRING" .constraintFailed ∧
+    dom "S" tb (.struct [("b", .octets [1, 2, 3])]) = true ∧
+    check "S" tb (.struct [("b", .octets [1, 2])]) = .ok ∧ check "S" tb (.struct [("b", .octets [1, 2, 3, 4, 5])]) = .ok ∧
+    check "L" tl (.list [.bool true, .bool false]) = .fail "L" .constraintFailed ∧
+    dom "L" tl (.list [.bool true, .bool false]) = true ∧ check "L" tl (.list [.bool true]) = .ok := by
+  decide +kernel
 
-/-- **F86.**  A constrained BMPString is tested against the compiler's alphabet 0..65533: the cell
-    FFFF is rejected, while the unconstrained BMPString checker accepts it. -/
-theorem bmp_nonchar_cex :
-    check "B" (.str .bmp (some [⟨some 1, some 1⟩]) none) (.octets [0xFF, 0xFF]) = .fail "B" .constraintFailed ∧
-    satisfies (.str .bmp (some [⟨some 1, some 1⟩]) none) (.octets [0xFF, 0xFF]) = true ∧
-    check "B0" (.str .bmp none none) (.octets [0xFF, 0xFF]) = .ok := by decide +kernel
+/-- **F86 repaired, the former witness.**  The compiler's default alphabet of BMPString is 0..65535:
+    a constrained BMPString accepts the cells FFFE and FFFF like the unconstrained checker does;
+    SIZE and FROM are still tested.  Inside `dom`. -/
+theorem bmp_all_cells_checked :
+    let t : Ty := .str .bmp (some [⟨some 1, some 1⟩]) none
+    check "B" t (.octets [0xFF, 0xFF]) = .ok ∧ satisfies t (.octets [0xFF, 0xFF]) = true ∧
+    dom "B" t (.octets [0xFF, 0xFF]) = true ∧
+    check "B" t (.octets [0xFF, 0xFE]) = .ok ∧
+    check "B0" (.str .bmp none none) (.octets [0xFF, 0xFF]) = .ok ∧
+    check "B" t (.octets [0xFF, 0xFF, 0, 0x61]) = .fail "B" .constraintFailed ∧
+    check "B3" (.str .bmp none (some [⟨some 97, some 122⟩])) (.octets [0xFF, 0xFF]) = .fail "B3" .constraintFailed := by
+  decide +kernel
 
 /-! ## 5. The walkers check every component and report the first failing one in member order -/
 
